@@ -23,3 +23,15 @@
 
 ; @template lemma:List:len_drop
 (forall ((l {L}) (i Int)) (! (=> (and (<= 0 i) (<= i (len_{L} l))) (= (len_{L} (drop_{L} i l)) (- (len_{L} l) i))) :pattern ((len_{L} (drop_{L} i l)))))
+
+; @template lemma:Trace:tprefix_trans
+(forall ((a {T}) (b {T}) (c {T})) (! (=> (and (tprefix_{T} a b) (tprefix_{T} b c)) (tprefix_{T} a c)) :pattern ((tprefix_{T} a b) (tprefix_{T} b c))))
+
+; @template lemma:TraceF:tmapok_mono
+(forall ((f Ref) (a {TA}) (b {TA})) (! (=> (tprefix_{TA} a b) (tprefix_{TB} (tmapok_{APPLY} f a) (tmapok_{APPLY} f b))) :pattern ((tprefix_{TA} a b) (tmapok_{APPLY} f b))))
+
+; @template lemma:TraceKeep:tfilter_mono
+(forall ((f Ref) (a {TA}) (b {TA})) (! (=> (tprefix_{TA} a b) (and (tprefix_{TA} (tfilter_{APPLY} f a) (tfilter_{APPLY} f b)) (tprefix_{TA} (tfilternot_{APPLY} f a) (tfilternot_{APPLY} f b)))) :pattern ((tprefix_{TA} a b) (tfilter_{APPLY} f b))))
+
+; @template lemma:Trace:tprefix_init
+(forall ((a {T}) (v {E}) (c {T})) (! (=> (tprefix_{T} (snoc_{T} a v) c) (tprefix_{T} a c)) :pattern ((tprefix_{T} (snoc_{T} a v) c))))
